@@ -30,6 +30,8 @@ type replayValue struct {
 type replayFile struct {
 	Retries int           `json:"retries,omitempty"`
 	Tier    string        `json:"tier,omitempty"`
+	Vary    []string      `json:"vary,omitempty"`
+	Expect  string        `json:"expect,omitempty"`
 	Harness string        `json:"harness"`
 	Values  []replayValue `json:"values"`
 }
@@ -303,10 +305,21 @@ func RunReplays(t tlog, harnesses map[string]func()) {
 		if rp.Retries > 0 {
 			attempts = rp.Retries
 		}
+		// A counterexample whose decisive value is the result of a hash the engine treats as an
+		// uninterpreted function (sha1, wyhash) cannot be forced natively either: the harness names
+		// the hash's inputs (zz.SearchOnReplay) and the replay searches them, all other values kept,
+		// until the same failure shows with the real hash; the file is rewritten with what was found.
+		search := len(rp.Vary) > 0 && rp.Expect != "pass" && rp.Expect != ""
+		if search && attempts < 4096 {
+			attempts = 4096
+		}
 		for a := 0; a < attempts; a++ {
 			if a > 0 {
 				if err := reset(p); err != nil {
 					break
+				}
+				if search {
+					varyValues(a)
 				}
 			}
 			res.Panic = ""
@@ -318,7 +331,11 @@ func RunReplays(t tlog, harnesses map[string]func()) {
 				}()
 				h()
 			}()
-			if len(Failed) > 0 || len(KnownHit) > 0 || res.Panic != "" {
+			if (len(Failed) > 0 || len(KnownHit) > 0 || res.Panic != "") && !(search && BadReplay) {
+				if search && a > 0 {
+					// keep what was found, so that replaying the file again reproduces it directly
+					rewriteRealised(p, a)
+				}
 				break
 			}
 		}
@@ -326,5 +343,65 @@ func RunReplays(t tlog, harnesses map[string]func()) {
 		b, _ := json.Marshal(res)
 		out.Write(append(b, '\n'))
 		t.Logf("%s: bad=%v failed=%v known=%v panic=%q", p, res.Bad, res.Failed, res.Known, res.Panic)
+	}
+}
+
+// SearchOnReplay names nondets (by the name given to Nondet*) that are inputs of a hash the engine
+// treats as an uninterpreted function. Natively a no-op; see RunReplays.
+func SearchOnReplay(name string) {}
+
+func variedName(n string) string {
+	if i := strings.IndexByte(n, '#'); i >= 0 {
+		n = n[:i]
+	}
+	if i := strings.IndexByte(n, '['); i >= 0 {
+		n = n[:i]
+	}
+	return strings.TrimSuffix(n, ".len")
+}
+
+// varyValues replaces the values of the searched nondets by the attempt's pseudo-random ones
+// (string and byte-slice elements stay bytes, lengths are kept).
+func varyValues(attempt int) {
+	x := uint64(attempt)*0x9E3779B97F4A7C15 + 0x1234567
+	for i := range rp.Values {
+		v := &rp.Values[i]
+		hit := false
+		for _, n := range rp.Vary {
+			if variedName(v.Name) == n && !strings.Contains(v.Name, ".len") {
+				hit = true
+			}
+		}
+		if !hit {
+			continue
+		}
+		x ^= x >> 30
+		x *= 0xBF58476D1CE4E5B9
+		x ^= x >> 27
+		x *= 0x94D049BB133111EB
+		x ^= x >> 31
+		val := x
+		if strings.Contains(v.Name, "[") {
+			val &= 0xff
+		}
+		v.Value = strconv.FormatUint(val, 10)
+	}
+}
+
+// rewriteRealised stores the values the search found in the replay file (all other fields kept).
+func rewriteRealised(path string, attempt int) {
+	b, err := os.ReadFile(path)
+	if err != nil {
+		return
+	}
+	var m map[string]any
+	if json.Unmarshal(b, &m) != nil {
+		return
+	}
+	m["values"] = rp.Values
+	m["realised"] = fmt.Sprintf("values of %v were found by the native search (attempt %d): the engine's counterexample fixed them only through an uninterpreted hash", rp.Vary, attempt)
+	delete(m, "vary")
+	if out, err := json.MarshalIndent(m, "", " "); err == nil {
+		os.WriteFile(path, out, 0644)
 	}
 }
